@@ -42,6 +42,7 @@ type node struct {
 	parent *node // nil: the prototype is Obj
 	own    map[string]prop
 	id     int
+	twin   bool // has the same own properties as another node (made by bear/bro from an existing object): == cannot tell them apart
 }
 
 func (n *node) find(name string) (*node, prop, int, bool) {
@@ -249,6 +250,29 @@ func (m *machine) add(t *rapid.T, how string) {
 		s := m.nodes[rapid.IntRange(0, len(m.nodes)-1).Draw(t, "sibling")]
 		n.parent = s.parent
 		src = n.name + " := " + s.name + ".bro(" + m.literal(t, n) + ")"
+	case "bearFrom", "broFrom":
+		// the source of the new object's own properties is an existing object: it must stay what it was
+		p := m.nodes[rapid.IntRange(0, len(m.nodes)-1).Draw(t, "parent")]
+		from := m.nodes[rapid.IntRange(0, len(m.nodes)-1).Draw(t, "source")]
+		for x := p; x != nil; x = x.parent {
+			if x == from {
+				// a source on the receiver's own chain is legal, but an implementation that (wrongly) re-parents the
+				// source would build a prototype cycle and hang instead of failing: keep the two apart
+				t.Skip("source is on the receiver's chain")
+			}
+		}
+		for k, v := range from.own {
+			n.own[k] = v
+		}
+		n.id = from.id
+		n.twin, from.twin = true, true
+		if how == "bearFrom" {
+			n.parent = p
+			src = n.name + " := " + p.name + ".bear(" + from.name + ")"
+		} else {
+			n.parent = p.parent
+			src = n.name + " := " + p.name + ".bro(" + from.name + ")"
+		}
 	}
 	m.exec(t, src)
 	m.nodes = append(m.nodes, n)
@@ -342,6 +366,9 @@ func (m *machine) structural(o *node) []Query {
 	chain = append(chain, "Obj", "BaseObj")
 	qs = append(qs, Query{"ancestors", o.name + ".ancestors", Expect{ListSame: chain}})
 	for _, other := range m.nodes {
+		if o.twin || other.twin {
+			continue // kindOf? compares with ==, which is structural on own properties
+		}
 		want := "false"
 		if onChain[other] {
 			want = "true"
@@ -412,13 +439,15 @@ func TestForest(t *testing.T) {
 		m.add(rt, "lit")
 		steps := 0
 		rt.Repeat(map[string]func(*rapid.T){
-			"lit":    func(t *rapid.T) { m.add(t, "lit") },
-			"bear":   func(t *rapid.T) { m.add(t, "bear") },
-			"bear2":  func(t *rapid.T) { m.add(t, "bear") },
-			"bro":    func(t *rapid.T) { m.add(t, "bro") },
-			"query":  func(t *rapid.T) { m.query(t) },
-			"query2": func(t *rapid.T) { m.query(t) },
-			"query3": func(t *rapid.T) { m.query(t) },
+			"lit":      func(t *rapid.T) { m.add(t, "lit") },
+			"bear":     func(t *rapid.T) { m.add(t, "bear") },
+			"bear2":    func(t *rapid.T) { m.add(t, "bear") },
+			"bro":      func(t *rapid.T) { m.add(t, "bro") },
+			"bearFrom": func(t *rapid.T) { m.add(t, "bearFrom") },
+			"broFrom":  func(t *rapid.T) { m.add(t, "broFrom") },
+			"query":    func(t *rapid.T) { m.query(t) },
+			"query2":   func(t *rapid.T) { m.query(t) },
+			"query3":   func(t *rapid.T) { m.query(t) },
 			"": func(t *rapid.T) {
 				steps++
 				if len(m.nodes) > 14 {
